@@ -83,6 +83,8 @@ def run(an: Analysis, rep):
     from . import c02, c10
     rep.run(c10.format_rules, an, SharedRules(rep, "R05.L", "line-table format constants (shared with C10's R10.*): 'the same line for every instruction' after re-encoding"))
     rep.run(c02.jump_rules, an, SharedRules(rep, "R05.J", "jump / closure operand arithmetic of the encoder (shared with C02's R02.3/R02.4): the re-encoded instructions resolve to the same operands"))
+    rep.run(c03.r035, an, SharedRules(rep, "R05.W", "operand width thresholds and unit emission (shared with C03's R03.5): normalize strips the recorded widths, so every operand is re-emitted at the width this function gives"))
+    rep.run(c03.r038, an, SharedRules(rep, "R05.K", "lines keyed at the first code unit of an instruction (shared with C03's R03.8): 'the same line for every instruction' and the same traced line events"))
     rep.run(c03.r037, an, SharedRules(rep, "R05.R", "re-layout after normalization (shared with C03's R03.7): with the width overrides stripped, jumps still land on their targets"))
 
 
@@ -113,7 +115,20 @@ def r053(an, rep):
                 return True
         return False
 
-    blocks = [None, _Fn(docstring=None), _Fn(docstring=""), _Fn(docstring="doc")]
+    # every other field of Function is given each value its type allows: the docstring rule of CPython (consts[0] if it is a str) does
+    # not depend on the kind of function
+    fn_cls = an.prog.cls("code_data::Function")
+    others = {}
+    for fl in fn_cls.fields:
+        if fl.name == "docstring":
+            continue
+        t = an.tg.unfold_rec(an.tg.field_type(fl))
+        lits = sorted({v for x in an.tg.leaves_in(t) if x[0] == "literal" for v in x[1]}, key=str)
+        vals = [None] if any(x == ("leaf", "None") for x in an.tg.leaves_in(t)) else []
+        vals += [v for v in lits]
+        others[fl.name] = vals or [_O(fl.name)]
+    combos = [dict(zip(others, c)) for c in itertools.product(*others.values())]
+    blocks = [None] + [_Fn(docstring=d, **c) for d in (None, "", "doc") for c in combos]
     tables = [(), (None,)]
     consts = ["s", 1, b"x"]
     overrides = [None, 0, 3]
@@ -139,12 +154,12 @@ def r053(an, rep):
             if g["kind"] == "seed":
                 want = is_fn and bt["docstring"] is not None
                 if val != want:
-                    bad.append(f"block={'Function(docstring=%r)' % bt['docstring'] if is_fn else None}: seeds={val}, needed={want}")
+                    bad.append(f"block={'Function(%s)' % ', '.join(f'{k}={v!r}' for k, v in bt.items() if not isinstance(v, _O)) if is_fn else None}: seeds={val}, needed={want}")
             else:
                 must = is_fn and bt["docstring"] is None and not tb and isinstance(cv, str) and ov is None
                 may = is_fn and bt["docstring"] is None and not tb and ov is None
                 if must and not val:
-                    bad.append(f"function without docstring whose first constant is the str {cv!r}: None is not pinned at index 0, the string becomes __doc__")
+                    bad.append(f"function ({', '.join(f'{k}={v!r}' for k, v in bt.items() if not isinstance(v, _O))}) whose first constant is the str {cv!r}: None is not pinned at index 0, the string becomes __doc__")
                 if val and not may:
                     bad.append(f"None pinned although block={'Function(docstring=%r)' % bt['docstring'] if is_fn else None}, table={tb}, override={ov}")
         what = "constants[0] = docstring" if g["kind"] == "seed" else "constants[0] = None"
